@@ -919,7 +919,7 @@ Section Main.
       assert (Hnin : name_in (s_name o) ns = true).
       { rewrite Hn. unfold name_in. apply existsb_exists. exists (v_name v). split; [exact (local_names_in ns ls es v Hlec Hv)|].
         rewrite beq_bytes_sym. exact Eb. }
-      destruct (Htag Ec Hou Hnin) as [Hprot _]. rewrite Hn in Hprot. unfold prot in Hprot.
+      pose proof (Htag Ec Hou Hnin) as Hprot. rewrite Hn in Hprot. unfold prot in Hprot.
       apply andb_true_iff in Hprot. destruct Hprot as [Hprot Href]. apply andb_true_iff in Hprot. destruct Hprot as [Hcnt Hnth2].
       apply Nat.eqb_eq in Hcnt.
       destruct (local_entry_of_name ns ls es i e n v Hlen Hle Hnth Hcnt Hnth2 Hv Eb) as [Hvr Hvl].
